@@ -6,6 +6,7 @@ retargeting arithmetic; program-level equivalence of lazily generated basic-bloc
                (harness/C03/tramp.c), both stack alignments
   thunk.*  (2) E1 on the real _MIR_redirect_thunk / _MIR_get_thunk_addr / _MIR_replace_bb_thunk / _MIR_change_code for
                every pair of addresses (harness/C03/thunk_arith.c)
+  mix.*    the entry of the real generate_func_code on a function interpreted before (known finding N24)
   shim.*   (3) the real _MIR_get_interp_shim per result-type list (harness/C06/shim.c, shared with C06)
 """
 import json
@@ -49,6 +50,10 @@ def prepare(tier, scratch):
                       sample=what + "; thunk and to symbolic addresses in [4096, 2^47)"))
     o3, n3 = C06.leg_shim(tier, scratch, dumper, seed)
     META["bounds"]["shim"] = "%d result lists (all lists of 0..2 results over i8..u64,p,f,d,ld + 7 lists of 3..6 results)" % n3
+    obs.append(Ob("mix.interp-then-gen", "C03/mix.c", entry="harness", unwind=3, checks="functional", object_bits=12, timeout=600,
+                  native_cc=["-no-pie", "-Wl,--unresolved-symbols=ignore-all"],
+                  sample="MIR_gen (also reached by the first call through the public address under lazy generation) on a function that was / was "
+                         "not run by MIR_interp before: the generator's entry accepts it and reaches generation proper (pipeline cut)"))
     return obs + o3
 
 
